@@ -1,5 +1,6 @@
 (** C04 — A validated molecule is complete, consistent and a fixed point of validation.
-    Property theorems only; each is closed by [exact] of a lemma from Proofs/MolRec.v or Proofs/MolSchema.v.
+    Property theorems only; each is closed by [exact] of a lemma from Proofs/MolRec.v, Proofs/MolSchema.v,
+    Proofs/MolSchemaRT.v or Proofs/MolTranslate.v.
     Models: Model/MolRec.v ([from_arrays] = qcelemental.molparse.from_arrays, domain "qm"), built on Model/Nucleus.v (C06)
     and Model/ChgMult.v (C05); Model/MolSchema.v ([from_schema] incl. contiguize_from_fragment_pattern, [to_schema],
     the fragment bookkeeping of Molecule.__init__).  Coordinates, masses and tolerances are exact rationals.
@@ -20,10 +21,17 @@
        .fragments list 0..nat-1 in order; full since 2b49794).
        Other attributes (masses / mass_numbers / real / labels after _filter_defaults, title-casing, 8-decimal rounding):
        ONLY correspondence / oracle on the implementation (known finding C04-molecule-allclose-mass-number lives there).
+       "no two atoms lie closer than the overlap threshold" for geometries ANYWHERE in space: C04_translation_invariant
+       (the model's decision, error class and record commute with rigid translation) and C04_too_close_refused_anywhere;
+       on the implementation: streams far / far_sweep (exact binary64 coordinates up to 2^38 from the origin).
     4. "passing a validated molecule through validation again returns the same molecule"
-                                                -> C04_idempotent (from_arrays, 0 <= mtol <= 1/4).  Through
-       from_schema(to_schema(.)) and Molecule: ONLY correspondence (stream schema_roundtrip runs the Coq model of
-       from_schema o to_schema against the implementation on accepted Bohr records, dtype 1 and 2) — no theorem yet.
+                                                -> C04_idempotent (from_arrays, 0 <= mtol <= 1/4);
+       through from_schema(to_schema(.)), dtype 1 and 2 -> C04_schema_fixed_point (records in Bohr with non-negative
+       separators, under the settings from_schema runs from_arrays with; a negative separator comes back normalised —
+       C09_roundtrip_negative_separators_refuted), using C04_contiguize_complete (the converse of C04_contiguize_accepts:
+       contiguize accepts every in-order pattern and hands everything through); the fragment list of the Molecule
+       built from that dictionary -> C04_schema_fixed_point_fragments.  The other attributes of the re-built Molecule:
+       ONLY correspondence / oracle.  (Stream schema_roundtrip still runs the model against the implementation.)
     5. "inputs for which no such record exists are refused with a validation error, never silently repaired":
        mismatched lengths -> C04_rejects_column_length, C04_rejects_geom_not_3n, C04_rejects_fragment_lengths;
        overlapping atoms -> C04_rejects_too_close; unknown units -> C04_rejects_unknown_units, C04_rejects_units_factor;
@@ -38,7 +46,7 @@
     for from_arrays and from_schema, Molecule glue partly (clause 3). *)
 From Coq Require Import ZArith List Bool String QArith Qabs.
 Require Import QV.Common.Outcome QV.Model.Nucleus QV.Model.ChgMult QV.Gen.MolConsts QV.Model.MolRec QV.Model.MolSchema.
-Require Import QV.Proofs.Nucleus QV.Proofs.ChgMult QV.Proofs.MolRec QV.Proofs.MolSchema.
+Require Import QV.Proofs.Nucleus QV.Proofs.ChgMult QV.Proofs.MolRec QV.Proofs.MolSchema QV.Proofs.MolSchemaRT QV.Proofs.MolTranslate.
 Import ListNotations.
 Open Scope Z_scope.
 
@@ -177,6 +185,50 @@ Theorem C04_molecule_fragments_partition :
   forall s np m, from_schema s np = Ok m -> List.concat (molecule_fragments s m) = zseq (Z.of_nat (List.length (m_elem m))).
 Proof. exact molecule_fragments_partition. Qed.
 
+(** ------------------------------------------------------------------------------------------------------------
+    Completeness of contiguize_from_fragment_pattern — the converse of C04_contiguize_accepts: a non-empty pattern that
+    lists 0 .. nat-1 in order, a geometry of nat rows and columns that (if given) have nat entries is accepted, with the
+    cumulative fragment sizes as separators and every array handed through unchanged.  (col_len n o: a column that is
+    given has n entries.) *)
+Theorem C04_contiguize_complete :
+  forall pat g ea ez ee em er el pts,
+    pat <> [] -> List.concat pat = zseq (total_atoms pat) ->
+    triples g = Ok pts -> Z.of_nat (List.length pts) = total_atoms pat ->
+    col_len (total_atoms pat) ea -> col_len (total_atoms pat) ez -> col_len (total_atoms pat) ee ->
+    col_len (total_atoms pat) em -> col_len (total_atoms pat) er -> col_len (total_atoms pat) el ->
+    contiguize pat g ea ez ee em er el =
+      Ok {| c_seps := cum_seps pat; c_geom := g; c_elea := ea; c_elez := ez; c_elem := ee; c_mass := em; c_real := er; c_elbl := el |}.
+Proof. exact contiguize_complete. Qed.
+
+(** The fixed point through the QCSchema entry point: a record accepted by from_arrays under the settings from_schema
+    uses (tooclose, mtol, zero_ghost_fragments at the defaults read from the source), in Bohr, non-empty, with
+    non-negative separators, exported by to_schema (dtype 1 or 2) and read back by from_schema with the same
+    nonphysical flag, is accepted and reproduced (masses up to equality of rationals; input_units_to_au is not part of a
+    QCSchema dictionary, [drop_iutau]). *)
+Theorem C04_schema_fixed_point :
+  forall r m dtype, from_arrays r = Ok m -> schema_run_settings r -> m_units m = "Bohr"%string -> m_geom m <> [] ->
+    Forall (fun s => 0 <= s) (m_seps m) -> dtype = 1 \/ dtype = 2 ->
+    exists m', from_schema (to_schema dtype m) (r_nonphysical r) = Ok m' /\ molrec_equiv m' (drop_iutau m).
+Proof. exact schema_fixed_point. Qed.
+
+(** ... and the Molecule object built from that dictionary has the record's fragment list. *)
+Theorem C04_schema_fixed_point_fragments :
+  forall r m dtype m', from_arrays r = Ok m -> molrec_equiv m' (drop_iutau m) ->
+    molecule_fragments (to_schema dtype m) m' = pieces m.
+Proof. exact schema_fixed_point_fragments. Qed.
+
+(** Validation does not depend on where the molecule sits: translating the geometry rigidly by any vector leaves the
+    decision and the error class unchanged, and an accepted record differs only by the translated coordinates. *)
+Theorem C04_translation_invariant :
+  forall t r, from_arrays (translate_raw t r) = translate_outcome t (from_arrays r).
+Proof. exact translation_invariant. Qed.
+
+(** In particular a pair closer than tooclose is refused at any distance from the origin. *)
+Theorem C04_too_close_refused_anywhere :
+  forall t r pts i j p q, triples (r_geom r) = Ok pts -> (i < j)%nat -> nth_error pts i = Some p -> nth_error pts j = Some q ->
+    (dist2 p q < r_tooclose r * r_tooclose r)%Q -> forall m, from_arrays (translate_raw t r) <> Ok m.
+Proof. exact too_close_refused_anywhere. Qed.
+
 (** regression witnesses: the failing inputs of the two fixed findings are refused with ValidationError *)
 Example C04_ex_old_failing_inputs_refused :
   from_schema (ex_two_atoms []) false = Err Validation /\ from_schema (ex_two_atoms [[5; 6]]) false = Err Validation /\
@@ -194,6 +246,18 @@ Example C04_ex_schema_accept :
   | Ok m => m_seps m = [1] /\ m_chg m = 1 /\ m_elem m = ["He"; "Li"]%string /\ molecule_fragments ex_schema m = [[0]; [1]]
   | Err _ => False end.
 Proof. vm_compute. repeat split. Qed.
+
+(** Non-vacuity for C04_schema_fixed_point: the record of ex_schema (He / Li+, separators [1]) satisfies its hypotheses
+    and comes back from from_schema (to_schema 1|2 .). *)
+Example C04_ex_schema_fixed_point :
+  match from_arrays (schema_arrays ex_schema false) with
+  | Ok m => schema_run_settings (schema_arrays ex_schema false) /\ m_units m = "Bohr"%string /\ m_geom m <> [] /\
+            Forall (fun s => 0 <= s) (m_seps m) /\
+            molrec_eqb_ok (from_schema (to_schema 1 m) false) m = true /\ molrec_eqb_ok (from_schema (to_schema 2 m) false) m = true
+  | Err _ => False end.
+Proof.
+  vm_compute. repeat split; try discriminate. constructor; [discriminate | constructor].
+Qed.
 
 (** regression witness: the old failing input geom=[0,0,0,1], elez=[1] *)
 Definition ex_bad_geom : raw :=
@@ -228,6 +292,20 @@ Proof. vm_compute. reflexivity. Qed.
 Example C04_ex_feedback : (0 <= r_mtol ex_raw)%Q /\ (r_mtol ex_raw <= 1 # 4)%Q /\
   molrec_eqb_ok (from_arrays (as_raw ex_raw ex_rec)) ex_rec = true.
 Proof. repeat split; vm_compute; first [reflexivity | discriminate]. Qed.
+(** Non-vacuity for C04_translation_invariant: ex_raw moved by (2^25, -3, 1/2) is accepted with the moved record, and a
+    coincident pair 2^25 away from the origin is refused. *)
+Example C04_ex_translated :
+  molrec_eqb_ok (from_arrays (translate_raw (33554432, -3, 1 # 2)%Q ex_raw)) (translate_rec (33554432, -3, 1 # 2)%Q ex_rec) = true.
+Proof. vm_compute. reflexivity. Qed.
+Definition ex_far_coincident : raw :=
+  {| r_geom := [33554432; -16777216; 0;  33554432 + (1 # 16); -16777216; 0]%Q; r_elea := None; r_elez := Some [Some 1; Some 2];
+     r_elem := None; r_mass := None; r_real := None; r_elbl := None; r_units := "Bohr"; r_iutau := None; r_fix_com := None;
+     r_fix_orientation := None; r_fix_symmetry := None; r_seps := None; r_fchg := None; r_fmult := None; r_chg := None;
+     r_mult := None; r_conn := None; r_speclabel := true; r_tooclose := 1 # 10; r_zgf := false; r_nonphysical := false;
+     r_mtol := 1 # 1000; r_minimal := false |}.
+Example C04_ex_far_pair_refused : from_arrays ex_far_coincident = Err Validation.
+Proof. vm_compute. reflexivity. Qed.
+
 Example C04_ex_bad_split : ~ Forall (fun p => p <> []) (np_split (repeat tt 4%nat) [3; 1]).
 Proof. intro H. vm_compute in H. inversion H as [|? ? _ H1]; subst. inversion H1 as [|? ? H2 _]; subst. apply H2. reflexivity. Qed.
 
@@ -252,3 +330,8 @@ Print Assumptions C04_from_schema_accepted_invariants.
 Print Assumptions C04_from_schema_rejects_unknown_schema.
 Print Assumptions C04_from_schema_refusal_classes.
 Print Assumptions C04_molecule_fragments_partition.
+Print Assumptions C04_contiguize_complete.
+Print Assumptions C04_schema_fixed_point.
+Print Assumptions C04_schema_fixed_point_fragments.
+Print Assumptions C04_translation_invariant.
+Print Assumptions C04_too_close_refused_anywhere.
